@@ -2,6 +2,7 @@ mod exec;
 mod frames;
 mod props;
 mod runner;
+mod server_world;
 mod tape;
 mod world;
 
@@ -14,6 +15,10 @@ fn prop_by_id(id: &str, thorough: bool) -> Option<Box<dyn Prop>> {
         "C02" => Box::new(props::c02::Outbound),
         "C06" => Box::new(props::c06::ChainProp { borrowed: false }),
         "C11" => Box::new(props::c06::ChainProp { borrowed: true }),
+        "C08" => Box::new(props::c08::ServerProp { kind: props::c08::Kind::C08 }),
+        "C09" => Box::new(props::c08::ServerProp { kind: props::c08::Kind::C09 }),
+        "C10" => Box::new(props::c08::ServerProp { kind: props::c08::Kind::C10 }),
+        "C18" => Box::new(props::c08::ServerProp { kind: props::c08::Kind::C18 }),
         "C17" => Box::new(props::c17::Bounded { production: thorough }),
         _ => return None,
     })
